@@ -28,7 +28,7 @@ theorem flatten_groups_conflict (bs : List FBatch) :
 theorem flatten_idempotent (bs p : List FBatch) (hp : p.Perm (flatten bs)) : flatten p = p :=
   Ach.Flatten.flatten_idempotent bs p hp
 
-theorem flatten_functions_unchanged : Ach.Gen.hashes_flatten = [("Flatten", 17433447634489127110), ("File.FlattenBatches", 1536511262116566390), ("canMerge", 10022370995848969961), ("mergeableBatcher.GetHeaderSignature", 8692522239459761802), ("mergeableBatcher.GetTraceNumbers", 5489775042599663990), ("mergeableBatcher.Consume", 16867738305919833767), ("mergeableBatcher.Copy", 9658292282595754676), ("mergeableBatcher.AddToFile", 9783587712370690963), ("mergeableIATBatch.GetHeaderSignature", 765302516057565604), ("mergeableIATBatch.Consume", 9696842403323344610), ("mergeableIATBatch.Copy", 1605185147473018006), ("mergeableIATBatch.AddToFile", 4703499552243858790)] := by decide +kernel
+theorem flatten_functions_unchanged : Ach.Gen.hashes_flatten = [("Flatten", 17433447634489127110), ("File.FlattenBatches", 1536511262116566390), ("canMerge", 10022370995848969961), ("mergeableBatcher.GetHeaderSignature", 8692522239459761802), ("mergeableBatcher.GetTraceNumbers", 5489775042599663990), ("mergeableBatcher.Consume", 16867738305919833767), ("mergeableBatcher.Copy", 17960276134899704992), ("mergeableBatcher.AddToFile", 9783587712370690963), ("mergeableIATBatch.GetHeaderSignature", 765302516057565604), ("mergeableIATBatch.Consume", 9696842403323344610), ("mergeableIATBatch.Copy", 1045880233085641850), ("mergeableIATBatch.AddToFile", 4703499552243858790)] := by decide +kernel
 
 /-- non-vacuity: three batches, two with the same header and disjoint traces are merged, the third (colliding trace) is kept apart -/
 example : flatten [⟨1, [⟨10, 0⟩]⟩, ⟨1, [⟨11, 1⟩]⟩, ⟨1, [⟨10, 2⟩]⟩] = [⟨1, [⟨10, 0⟩, ⟨11, 1⟩]⟩, ⟨1, [⟨10, 2⟩]⟩] := by decide
